@@ -1,5 +1,6 @@
 """C17 — generated opset classes mirror the ONNX operator schemas."""
-MODULES = ["contracts.c17_opsets"]
+# Op.__call__ -> BaseEvaluator.eval_op: the eager call of a generated method (contract shared with C01)
+MODULES = ["contracts.c17_opsets", "contracts.c01_operators:eval_op"]
 EVIDENCE_EXTRA = {"exhaustive": True}
 
 
@@ -20,7 +21,36 @@ sys.exit(1 if bad else 0)
 """
 
 
+EVAL_OP_HISTORY = r"""
+import subprocess, sys
+PROG = '''
+import sys
+import numpy as np
+from onnxscript import opset7, opset15, tensor
+xi = tensor.Tensor(np.array([4, 9], dtype=np.int32))
+xf = tensor.Tensor(np.array([4, 9], dtype=np.float32))
+if sys.argv[1] == "history":
+    opset7.Pow(xf, xf)        # an older version of the same operator (one type variable for both operands), evaluated first
+# Pow-12+: the exponent has its own type variable, so the float literal 0.5 is NOT cast to the int32 of the base
+print(np.asarray(opset15.Pow(xi, 0.5).value).tolist())
+'''
+
+
+def run(mode):
+    return subprocess.run([sys.executable, "-c", PROG, mode], capture_output=True, text=True).stdout.strip().splitlines()[-1]
+
+
+fresh, after = run("fresh"), run("history")
+if fresh != after:
+    print(f"opset15.Pow(int32 [4, 9], 0.5) = {fresh} in a fresh process and {after} after opset7.Pow was evaluated by the same evaluator")
+    sys.exit(1)
+sys.exit(0)
+"""
+
+
 def replay(ob):
+    if "eval_op" in ob["name"]:
+        return EVAL_OP_HISTORY
     if "prepare_inputs" in ob["name"]:
         return PREP
     case = (ob.get("model") or {}).get("case", "")
